@@ -355,6 +355,19 @@ class Sem:
                     return out
             if want is None:
                 return []
+        if f[0] == "truth" and f[1].op == "proj" and f[1].info == "ok" and f[1].args and f[1].args[0].op == "call":
+            x = f[1]
+            # `if !config.is_owner(api, &sender)? { return Err }`: a workspace helper returning Ok(<comparison>): the comparison itself, over
+            # the call's arguments
+            c = x.args[0]
+            b = w.callee_body(c)
+            if b is not None and b.is_fn():
+                alts = w._ok_alts(w.ret_expr(b), "ok", 0, False) or []
+                if len(alts) == 1:
+                    g = self._norm_bool(w.ident(alts[0], expand_ws=False), f[2])
+                    if g[0] == "cmp" or (g[0] == "truth" and g[1] is not alts[0]):
+                        return [tuple(w.subst_params(t, b, list(c.args)) if isinstance(t, E) else t for t in g)]
+            return []
         if want is None or x.op != "call":
             return []
         b = w.callee_body(x)
